@@ -5,7 +5,7 @@
   empty path, empty key, or a second unescaped '=' in one argument (and the empty string) are rejected.
 """
 
-# Unicode White_Space (what "whitespace" means for trimming; only ASCII members are ever generated as padding)
+# Unicode White_Space (what "whitespace" means for trimming)
 WHITE = set([9, 10, 11, 12, 13, 0x20, 0x85, 0xA0, 0x1680, 0x2028, 0x2029, 0x202F, 0x205F, 0x3000] +
             list(range(0x2000, 0x200B)))
 
@@ -80,7 +80,10 @@ def render(path, args, rng=None, trailing_comma=False):
     def pad(s):
         if rng is None:
             return s
-        return rng.choice(["", "", " ", "  ", "\t"]) + s + rng.choice(["", "", " ", "\t "])
+        # ASCII and multi-byte White_Space: all of it is trimmed
+        lead = ["", "", "", " ", "  ", "\t", "\u00a0", "\u0085", "\u3000", " \u2003", "\u00a0\u00a0", " \u0085", "\u2028", "\u1680 "]
+        trail = ["", "", "", " ", "\t ", "\u00a0", "\u3000 ", "\u2029", "\u205f\u202f"]
+        return rng.choice(lead) + s + rng.choice(trail)
     parts = [pad(escape(path))]
     for k, v in args:
         if v == "" and (rng is None or rng.random() < 0.5):
